@@ -150,6 +150,8 @@ def run(ctx, model_ok):
     sets.append(("ints", int_scripts(streams.INT_GRID_FULL if thorough else streams.INT_GRID_QUICK)))
     sets.append(("strings", string_scripts(3 if thorough else 2)))
     sets.append(("pieces", piece_scripts()))
+    sets.append(("lookalike-pairs", [s_ for s_, _ in streams.lookalike_pair_scripts(ctx.rng, 1500 if thorough else 400)]))
+    sets.append(("number-like", streams.number_like_sources()))
     sets.append(("typefns", typefn_scripts()))
     sets.append(("progs", progs.generate(ctx.rng, 40000 if thorough else 2500)))
     # the same constructs at every SIZE on both sides of the powers of two and round numbers (names, literals, keys with a
